@@ -19,6 +19,9 @@ UNIT_TRUST = {
     "subscriber": [IMBL, BCAST, TASK, RBOX, STD, "R-PIN: self: Pin<&mut Self> => &mut self", "R-BREAKVAL: loop-with-break-value desugared", "vstd specs for Vec, vec::IntoIter (remaining() is prophetic), Option, mem::replace, unreachable_unchecked (requires false)"],
     "transaction": [IMBL, BCAST, STD, "R-MUTSELF: `fn commit(mut self)` => `fn commit(self) { let mut this = self; … }` (Verus has no `mut self`)", "R-PANIC on insert/set/remove/entry", "R-TRAIT: Drop::drop / Deref::deref of the entry types verified as inherent methods (a trait method cannot carry a precondition)", "vstd specs for Vec (push, clear, is_empty), mem::take (assume_specification)"],
     "entry": [IMBL, BCAST, STD, "R-TRAIT: Drop::drop / Deref::deref verified as inherent methods", "ObservableVector::set/remove appear with the clauses proved in unit `vector`"],
+    "esub": [TASK, "prelude/state_view.rs: caller view of state.rs (&self receivers): the contracts proved in unit `state` with the final(self) clauses dropped and `registered(state, waker)` for the waker-list clause; readlock::SharedReadLock/SharedReadGuard transparent (cur()/target()) — TRUSTED TO MATCH unit state", "R-INST: L = SyncLock"],
+    "shared": ["prelude/arc.rs: Arc/Weak as counted handles with DerefMut (R-LOCK: sequential execution; aliasing between handles not modelled) — ASSUMED", "prelude/rwlock_handles.rs: RwLock::read/write hand out &mut to the protected state (R-LOCK)", "state.rs functions appear with exactly the contracts proved in unit `state` (//@viewof)", "R-LOCK: &self receivers of the setters/getters => &mut self; R-INST: L = SyncLock; R-TRAIT: Drop as inherent method", "try_read/try_write not under contract; SUBSCRIBER_REFS = 1 copied by hand from lock.rs"],
+    "unique": ["readlock::Shared stand-in (owns the state, counted read locks, DerefMut under R-LOCK) — ASSUMED", "state.rs functions with the contracts proved in unit `state` (//@viewof)", "R-LOCK: `this: &Self` of subscribe => `&mut Self`; R-INST: L = SyncLock; R-TRAIT: Drop as inherent method", "into_shared (ptr::read + mem::forget) is outside Verus: Kani + bounded"],
     "state": [TASK, "prelude/wakerlist.rs: the waker list is a sequence; drain(..) and mem::take empty it — ASSUMED", "prelude/rwlock_seq.rs (R-LOCK): std::sync::RwLock in a sequential execution: read() gives &M, write()/get_mut() give &mut M; poll_update/close take &mut self — everything about concurrent access is NOT decided", "PartialEq::ne and state::hash are deterministic functions of the values (axiom_ne, spec_hash); state::hash and state::wake are R-EXT (trusted; wake's effect on the wakers is covered by the bounded check only)", "the version counter stays below u64::MAX (requires on notifying setters)"],
     "head": [IMBL, ITERS, SMALLVEC, STD, "R-INST: S::Item instantiated to VectorDiff<T> (single-diff container) in update_limit/constructors"],
     "tail": [IMBL, ITERS, SMALLVEC, STD, "R-INST: element type instantiated to T"],
@@ -37,18 +40,18 @@ VERUS = "contract-based deductive verification (Verus/Z3) of the real functions 
 BND = "bounded exhaustive enumeration on the real crates as stand-in for what Verus cannot take"
 
 PROPS = {
-    "C01": P("proof", ["state"], ["obs"],
+    "C01": P("proof", ["state", "esub", "shared", "unique"], ["obs"],
         "Verus discharges the contracts of every function of state.rs: poll_update is ready exactly when version==0 or observed<version, marks the value observed, otherwise stays pending and changes nothing else; set/update always bump the version by one and store the value; set_if_not_eq / set_if_hash_not_eq store+notify+return Some(previous) exactly when ne / hashes differ and otherwise leave the whole state identical; update_if bumps exactly when the closure returned true.",
-        "sequential (R-LOCK); handle layer (subscriber.rs/unique.rs/shared.rs wrappers) not yet under contract in this round; PartialEq::ne / hash deterministic; version < u64::MAX",
-        VERUS, ["the wrappers in subscriber.rs / unique.rs / shared.rs that forward to state.rs are not yet under contract"]),
-    "C02": P("proof", ["state"], ["obs"],
+        "sequential (R-LOCK); the sync handle layer is under contract too: Subscriber::{new,next_now,next_ref_now,get,read,poll_next_ref,reset,clone,clone_reset} and ObservableReadGuard over a caller view of state.rs, SharedObservable / ObservableWriteGuard / Observable setters, getters and subscribe* over the contracts proved for state.rs (Arc/RwLock/readlock stand-ins); PartialEq::ne / hash deterministic; version < u64::MAX; try_read/try_write, Stream::poll_next/Next::poll (one-line maps over poll_next_ref) and the async flavour are not under contract",
+        VERUS + "; " + BND, ["Subscriber's Stream/Future impls (map over poll_next_ref), try_read/try_write and the async-lock flavour are bounded only"]),
+    "C02": P("proof", ["state", "esub"], ["obs"],
         "Sequential obligations only: poll_update returning Pending has pushed a clone of the caller's waker onto the waker list (and only then); every notifying setter and close leave the waker list empty, and the list stand-in can only be emptied through drain(..)/mem::take whose results the code hands to wake().",
         "NO thread schedules (R-LOCK erases them); `wake` itself is R-EXT (its loop over the drained wakers is not verified)",
         VERUS, ["thread interleavings are not decided", "state::wake is trusted (R-EXT)"]),
-    "C03": P("proof", ["state"], ["obs"],
+    "C03": P("proof", ["state", "esub", "shared", "unique"], ["obs"],
         "Sequential: poll_update yields None iff version==0; close sets version 0; notifying setters keep an open state open (version>=1 stays >=1).",
-        "sequential; Drop of Observable/SharedObservable, upgrade/downgrade and into_shared not yet under contract in this round; concurrent last drops not decided",
-        VERUS, ["handle layer (shared.rs/unique.rs Drop, upgrade) not yet under contract", "concurrent last drops are not decided"]),
+        "sequential; also proved: Drop of the unique Observable closes unconditionally, Drop of a SharedObservable closes iff the strong count of ITS clone counter is 1 and otherwise leaves the state untouched, upgrade succeeds iff both the state and the counter allocation are alive, Subscriber::poll_next_ref yields None iff closed; lemma over the abstract handle heap: closed <=> no owner. into_shared is Kani's (C20); concurrent last drops not decided",
+        VERUS + "; " + BND, ["concurrent last drops are not decided", "into_shared (ptr::read) is checked by Kani and the bounded histories, not by Verus"]),
     "C05": P("proof", ["vector", "subscriber", "transaction", "entry"], ["sub"],
         "Verus proves: each of the eleven mutators changes the contents like a plain vector and, iff a receiver exists, appends exactly one message carrying exactly the matching diff (emittable on the old contents, producing the new contents) and the new state; documented no-ops change nothing; subscribe snapshots values and a receiver positioned at the end of the log. Both subscriber streams deliver the queued diffs in FIFO order (unbatched: head of the backlog, rest stays queued; batched: the concatenation of all queued messages).",
         "channel FIFO is tokio's (assumed, exercised by the bounded runs); transaction/entry units pending; R-LOCK sequential",
@@ -97,10 +100,10 @@ PROPS = {
         "Bounded so far: the same exhaustive handle histories as for C01-C03/C19 are run on the async-lock flavour (every future polled by hand; nothing ever has to wait in these histories) and compared with the same reference model as the sync flavour: same values, readiness, wake-ups, end of stream and counts.",
         "bounded stand-in; lock waiting is covered by the held-guard scenarios (operations queued behind a write/read guard must be woken on release and take effect atomically in queue order)",
         BND, [BOUNDED_NOTE]),
-    "C19": P("exploration", [], ["obs-counts", "obs-async-counts"],
-        "Bounded so far: after every operation of every enumerated handle history (clone, subscribe, downgrade, upgrade, into_shared, drops; at most 3 owners, 3 subscribers, 2 weak references) observable_count, subscriber_count, strong_count and weak_count reported by every owner equal the model's numbers, for both lock flavours.",
-        "bounded stand-in, exhaustive in the stated scope; handle-count contracts pending",
-        BND, [BOUNDED_NOTE]),
+    "C19": P("proof", ["shared", "unique"], ["obs-counts", "obs-async-counts"],
+        "Verus proves over Arc/Weak handle stand-ins which handles every operation creates (clone: one on the state and one on the clone counter; subscribe*: one on the state only; downgrade/upgrade/from_inner accordingly) and that the count functions return strong(counter), (strong(state) - strong(counter)) / refs-per-subscriber, their sum and weak(state); the lemma over the abstract handle heap (count = number of live handles) carries this through every sequential history: observable_count = #clones, subscriber_count = #subscribers, strong_count = their sum. The async flavour (two references per subscriber) and into_shared are bounded.",
+        "Arc's contract (strong count = live handles) and the handle abstraction are assumed; the per-flavour constant SUBSCRIBER_REFS is taken from lock.rs by hand (sync = 1); async flavour bounded only",
+        VERUS + " + lemma over the abstract handle heap; " + BND, [BOUNDED_NOTE]),
     "C20": dict(P("other", ["subscriber"], ["drops", "obs-counts"],
         "Mixed. (1) Verus proves the `unsafe { unreachable_unchecked() }` arm of VectorSubscriberStream::poll_next unreachable (vstd gives it `requires false`). (2) Kani (CBMC) checks the in-place replacement in reusable_box.rs on loop-free harnesses with drop-counting futures and symbolic payloads: same-layout reuse, different-layout reallocation, rejected try_set; pointer, double-free and dead-object checks plus 'each future dropped exactly once, none early' — complete for the instantiated future types. (3) thorough: Kani on Observable::into_shared (ptr::read + mem::forget) with #[kani::unwind(3)] and unwinding assertions on; Miri (tree borrows) on a fixed set of histories through every unsafe block. (4) A token scan compares every unsafe-related site with the audited list; a new site makes the property undecided. (5) Bounded drop accounting with an instrumented item type: nothing handed to the library stays alive after everything is dropped, including streams abandoned in the middle of a batch. Everything else is safe Rust (ownership discipline).",
         "only the Verus obligation is counted as discharged; Kani results hold for the instantiated types; Miri and the drop accounting are bounded; 'never twice' for safe code rests on Rust's ownership discipline",
